@@ -260,6 +260,9 @@ class Seqs:
         num = self.num
         if not isinstance(t, tuple) or not t:
             return None
+        if t[0] == "field" and len(t) == 3 and isinstance(t[1], tuple) and t[1] and t[1][0] == "variant" and t[1][2] == "Ok" and str(t[2]) == "0":
+            # `match r { Ok(v) => .. }` names the payload that `r?` names ('okval', r)
+            return self.seq(("okval", t[1][1]))
         if t in self.entry:
             return self.entry[t]
         if t in self.sources:
